@@ -172,8 +172,11 @@ _strtoll (const char *nptr, char **endptr, int base)
   while (isspace (*nptr))
     nptr++;
 
-  if (!*nptr)
+  if (!*nptr) {
+    if (endptr)
+      *endptr = (char *) nptr;
     return val;
+  }
 
   /* Get sign */
   if (*nptr == '-') {
@@ -183,8 +186,11 @@ _strtoll (const char *nptr, char **endptr, int base)
     nptr++;
   }
 
-  if (!*nptr)
+  if (!*nptr) {
+    if (endptr)
+      *endptr = (char *) nptr;
     return val;
+  }
 
   /* Try to detect the base if none was given */
   if (base == 0) {
